@@ -183,3 +183,11 @@ class Report:
 def short(s, n=200):
     s = repr(s)
     return s if len(s) <= n else s[: n - 3] + "..."
+
+
+def quick_scale() -> int:
+    """Multiplier of the quick-tier budgets: >1 when hand-modelled source units differ from the recorded ones (harness/provenance.py)."""
+    try:
+        return max(1, int(os.environ.get("XV_BUDGET_SCALE", "1")))
+    except ValueError:
+        return 1
